@@ -443,6 +443,13 @@ func sameHolder(a, b ssa.Value) bool {
 			case *ssa.ChangeInterface:
 				v = x.X
 				continue
+			case *ssa.Call:
+				// a chainable mutator hands its receiver back (bucket.SetListEntry(...).HasError())
+				if sc := x.Call.StaticCallee(); sc != nil && sc.Signature.Recv() != nil && len(x.Call.Args) > 0 &&
+					sc.Signature.Results().Len() == 1 && types.Identical(sc.Signature.Results().At(0).Type(), sc.Signature.Recv().Type()) && returnsReceiver(sc) {
+					v = x.Call.Args[0]
+					continue
+				}
 			}
 			break
 		}
@@ -451,5 +458,36 @@ func sameHolder(a, b ssa.Value) bool {
 	if a == nil || b == nil {
 		return false
 	}
-	return a == b || sameAddr(a, b) || strip(a) == strip(b)
+	if a == b || sameAddr(a, b) || strip(a) == strip(b) {
+		return true
+	}
+	// two loads of the same (embedded, pointer-typed) holder field
+	ua, okUA := a.(*ssa.UnOp)
+	ub, okUB := b.(*ssa.UnOp)
+	if okUA && okUB && ua.Op == token.MUL && ub.Op == token.MUL {
+		if _, isFA := ua.X.(*ssa.FieldAddr); isFA {
+			return sameHolder(ua.X, ub.X)
+		}
+	}
+	// the same embedded part of two names for one object
+	fa, okA := a.(*ssa.FieldAddr)
+	fb, okB := b.(*ssa.FieldAddr)
+	if okA && okB && fa.Field == fb.Field {
+		return strip(fa.X) == strip(fb.X)
+	}
+	return false
+}
+
+// returnsReceiver: every return of the method hands back its own receiver.
+func returnsReceiver(fn *ssa.Function) bool {
+	if fn.Blocks == nil || len(fn.Params) == 0 {
+		return false
+	}
+	rets := returnsOf(fn)
+	for _, r := range rets {
+		if len(r.Results) != 1 || r.Results[0] != ssa.Value(fn.Params[0]) {
+			return false
+		}
+	}
+	return len(rets) > 0
 }
